@@ -6,6 +6,7 @@ import (
 	rand2 "crypto/rand"
 	"io"
 	"math/big"
+	"math/bits"
 
 	"go.dedis.ch/kyber/v4/compatible/bigmod"
 	"go.dedis.ch/kyber/v4/compatible/compatiblemod"
@@ -159,9 +160,20 @@ func Prime(rand io.Reader, bits int) (*Int, error) {
 }
 func (z *Int) String() string { return z.ToBigInt().String() }
 func (z *Int) Exp(x, y *Int, m *compatiblemod.Mod) *Int {
-	// Exp requires y to be reduced modulo m
-	y.Mod(y, m)
-	z.Int.Exp(&x.Int, y.Bytes(m), &m.Modulus)
+	// The exponent is an integer, not a residue: it must not be reduced modulo m
+	// (x^(y mod m) != x^y in general) and the caller's y is left untouched.
+	// bigmod takes it as big-endian bytes of any length; the base must have the
+	// announced length of the modulus.
+	base := bigmod.NewNat().Set(&x.Int).ExpandFor(&m.Modulus)
+	// big-endian bytes of y at its announced length (a public quantity)
+	ebuf := make([]byte, len(y.Int.Bits())*(bits.UintSize/8)+1)
+	ebuf[0] = 1
+	emod, err := bigmod.NewModulus(ebuf)
+	if err != nil {
+		panic(err)
+	}
+	e := bigmod.NewNat().Set(&y.Int).ExpandFor(emod).Bytes(emod)
+	z.Int = *bigmod.NewNat().Exp(base, e, &m.Modulus)
 	return z
 }
 
